@@ -2,7 +2,7 @@
 # Runs the repository's pinned baseline (guard OFF) and checks that all 39 stable tests pass.
 unset XDIS_VERIF
 out=$(mktemp /tmp/xdis-baseline-XXXXXX.xml)
-cd /repo && PYTHONDONTWRITEBYTECODE=1 /venv/bin/python -m pytest -ra -q -p no:cacheprovider --timeout=900 --continue-on-collection-errors --junitxml=$out >/dev/null 2>&1
+cd "${REPO_DIR:-/repo}" && PYTHONPATH="${REPO_DIR:-/repo}" PYTHONDONTWRITEBYTECODE=1 /venv/bin/python -m pytest -ra -q -p no:cacheprovider --timeout=900 --continue-on-collection-errors --junitxml=$out >/dev/null 2>&1
 python3 - "$out" <<'PY'
 import sys, json, xml.etree.ElementTree as ET
 base = json.load(open('/root/.vp/BASELINE.json'))['stable_pass']
